@@ -159,6 +159,70 @@ func scUnstakeBurnRestake(w *sim.World) {
 	w.Run()
 }
 
+// scUnstakeDowntimeRestake: stake just above the minimum -> miss every vote -> begin to unstake in the last block before the
+// downtime punishment falls due -> the next BeginBlock slashes the unstaking validator (Tendermint still reports its vote)
+// below the minimum: forced unstake of a validator that sits in the unstaking queue -> stake again -> begin to unstake
+// again before the first completion time -> cross the first completion time but not the second: nothing may be paid.
+func scUnstakeDowntimeRestake(w *sim.World) {
+	v := freeActor(w, 1)
+	if v == nil {
+		w.Run()
+		return
+	}
+	cp := sim.ParamsOf(w.View())
+	w.Reserved[v.AddrHex()] = true
+	defer delete(w.Reserved, v.AddrHex())
+	w.Force("stake-min+1", stakeTx(w, v, cp.Min+1))
+	if !w.Block() {
+		return
+	}
+	w.MissOverride[v.AddrHex()] = 100
+	begun := false
+	var t1 time.Time
+	for i := int64(0); i < cp.Window+12; i++ {
+		w.Step(1 + i%2)
+		if si := w.View().Sign[v.AddrHex()]; si != nil && !begun && w.Env.H+1 == si.Start+cp.Window {
+			w.Force("begin-unstake-before-punishment", unstakeTx(w, v))
+			begun = true
+		}
+		if !w.Block() {
+			return
+		}
+		if x := val(w, v); begun && x != nil && x.Status == 1 && t1.IsZero() {
+			t1 = x.Unstaking
+		}
+		if x := val(w, v); begun && x != nil && x.Status == 0 {
+			break
+		}
+	}
+	delete(w.MissOverride, v.AddrHex())
+	if x := val(w, v); begun && x != nil && x.Status == 0 && !t1.IsZero() {
+		w.Force("restake", stakeTx(w, v, cp.Min))
+		w.Step(2)
+		if !w.Block() {
+			return
+		}
+		w.Step(int64(cp.Unstaking/time.Second) / 2)
+		w.Force("begin-unstake-again", unstakeTx(w, v))
+		if !w.Block() {
+			return
+		}
+		// cross the first completion time (a stale queue entry would fire) but not the second
+		if d := int64(t1.Sub(w.Now)/time.Second) + 1; d > 0 {
+			w.Step(d)
+			if !w.Block() {
+				return
+			}
+		}
+		w.Step(3)
+		if !w.Block() {
+			return
+		}
+	}
+	delete(w.Reserved, v.AddrHex())
+	w.Run()
+}
+
 // scJailRaiseUnjail: stake twice the minimum -> miss votes until jailed -> governance raises pos/StakeMinimum above the
 // remaining stake -> unjail at the expiry (must be refused: below the minimum now in force) -> begin-unstake ->
 // maturity (must still be paid out).
@@ -394,6 +458,26 @@ func scenarioFor(prop string, i int, r *sim.Rand) (func(w *sim.World), func(p *s
 				p.Pos.DowntimeJailDuration = time.Duration([]int64{60, 120, 600}[i/8%3]) * time.Second
 			}
 		case 3:
+			if i/8%3 != 2 {
+				return scUnstakeDowntimeRestake, func(p *sim.Profile) {
+					p.CustomPos = true
+					if p.Pos.SignedBlocksWindow == 0 {
+						p.Pos = sim.SmallWindowPos(r)
+					}
+					p.Pos.MaxValidators = 100000
+					p.Pos.MinSignedPerWindow = sdk.NewDecWithPrec(5, 1)
+					p.Pos.SlashFractionDowntime = sdk.NewDecWithPrec(1, 2)
+					p.Pos.DowntimeJailDuration = 60 * time.Second
+					p.Pos.UnstakingTime = time.Duration([]int64{600, 3600}[i/8%2]) * time.Second
+					// the script depends on the window, the fraction and the minimum: no parameter changes in these histories
+					wt := map[string]int{}
+					for k, v := range p.W {
+						wt[k] = v
+					}
+					wt["govparam"], wt["acl"] = 0, 0
+					p.W = wt
+				}
+			}
 			return scUnstakeBurnRestake, func(p *sim.Profile) {
 				p.CustomPos = true
 				if p.Pos.SignedBlocksWindow == 0 {
